@@ -1443,4 +1443,132 @@ example : Ordered ([⟨10, [(1, some 5)]⟩] ++ ⟨11, [(1, some 5)]⟩ :: [⟨1
 #guard (history [⟨10, [(1, some 5)]⟩, ⟨11, [(1, some 5)]⟩, ⟨11, [(1, Option.none)]⟩, ⟨12, [(1, some 7)]⟩]) =
   some [⟨1, 10, some 5⟩, ⟨1, 12, some 7⟩]
 
+/-! ## k5: re-merges INTERLEAVED with new versions (the form left open in i5) -/
+
+/-- one `bi_merge` call of an interleaved history: a NEW version, or a version merged AGAIN -/
+inductive Step
+  | new (v : Version)
+  | again (w : Version)
+
+def Step.version : Step → Version
+  | .new v => v
+  | .again w => w
+
+/-- the publications of an interleaved history: the new versions, in merge order (the re-merges publish nothing) -/
+def news : List Step → List Version
+  | [] => []
+  | .new v :: ss => v :: news ss
+  | .again _ :: ss => news ss
+
+/-- the store after the calls: every step, new or again, is the same call `bi_merge(store, Bi(ts, stamp))` -/
+def runSteps (st : Store) (ss : List Step) : Store :=
+  ss.foldl (fun s x => biMerge (some s) (Bi x.version.ts x.version.stamp)) st
+
+/-- `Interleaved pub st ss`: from the store `st` (publications so far: `pub`) every `again w` step of `ss` merges a version that is in the
+    store AT THAT MOMENT - all its rows are rows of the current store - or a version published so far whose values are NaN or the
+    values visible as of its stamp in the current store. -/
+def Interleaved (pub : List Version) (st : Store) : List Step → Prop
+  | [] => True
+  | .new v :: ss => Interleaved (pub ++ [v]) (biMerge (some st) (Bi v.ts v.stamp)) ss
+  | .again w :: ss =>
+      ((∀ p ∈ w.ts, (⟨p.1, w.stamp, p.2⟩ : Row) ∈ st) ∨
+        (w ∈ pub ∧ ∀ p ∈ w.ts, ∃ y, (p.1, y) ∈ biRead st (some w.stamp) (-1) ∧ (p.2 = Option.none ∨ p.2 = y))) ∧
+      Interleaved pub (biMerge (some st) (Bi w.ts w.stamp)) ss
+
+theorem inv_interleaved (ss : List Step) : ∀ (pub : List Version) (st : Store), Inv st (logRows pub) →
+    SortedLe (logRows (pub ++ news ss)) → Interleaved pub st ss → Inv (runSteps st ss) (logRows (pub ++ news ss)) := by
+  induction ss with
+  | nil => intro pub st h _ _; simpa [news, runSteps] using h
+  | cons s ss ih =>
+    intro pub st h hs hi
+    cases s with
+    | new v =>
+      simp only [news] at hs ⊢
+      have e : pub ++ v :: news ss = (pub ++ [v]) ++ news ss := by simp
+      rw [e] at hs ⊢
+      have hs1 : SortedLe (logRows (pub ++ [v])) := by
+        rw [logRows_append] at hs; exact (List.pairwise_append.mp hs).1
+      have h1 : Inv (mergeFrames [st, Bi v.ts v.stamp]) (logRows (pub ++ [v])) := by
+        rw [logRows_append, logRows_single] at hs1 ⊢
+        exact inv_merge h hs1
+      exact ih _ _ h1 hs hi
+    | again w =>
+      simp only [news] at hs ⊢
+      obtain ⟨hw, hi'⟩ := hi
+      refine ih pub _ ?_ hs hi'
+      rcases hw with hin | ⟨hmem, hvis⟩
+      · exact inv_remerge h w hin
+      · refine inv_remerge_visible h w ?_ hvis
+        intro p hp
+        simp only [logRows, List.mem_flatMap, Bi, List.mem_map]
+        exact ⟨w, hmem, p, hp, rfl⟩
+
+/-- **idempotence, fully interleaved** (k5; open since round i5): in a history that goes on after `log`, ANY call may be the merge of a
+    version that is already there - `again w`, at any position BETWEEN the new versions, any number of them, stamps in any order, also
+    versions that were themselves published after `log` - as long as each is in the store when it is merged again (all its rows are rows
+    of the current store, or it was published and its values are NaN or the values visible as of its stamp).  Then the final store reads -
+    default read and first read, every `T` - exactly as the history in which none of these calls was made, i.e. as the fold of the
+    publications `log ++ news ss`.  (`merge_idem_future` / `merge_idem_many` are the cases `again* new*`.) -/
+theorem merge_idem_interleaved (log : List Version) (h : Ordered log) (st : Store) (hst : history log = some st)
+    (ss : List Step) (hi : Interleaved log st ss) (hl : Ordered (log ++ news ss)) (T : Option Int) :
+    ∃ st₂, history (log ++ news ss) = some st₂ ∧
+      biRead (runSteps st ss) T (-1) = biRead st₂ T (-1) ∧ biRead (runSteps st ss) T 0 = biRead st₂ T 0 ∧
+      biRead (runSteps st ss) T (-1) = specRead (log ++ news ss) T ∧ biRead (runSteps st ss) T 0 = specFirst (log ++ news ss) T := by
+  obtain ⟨st', hst', hinv⟩ := history_inv log h.ne h.wf h.stamps
+  rw [hst] at hst'; cases hst'
+  have hs := logRows_sorted _ hl.stamps
+  have i1 := inv_interleaved ss log st hinv hs hi
+  obtain ⟨st₂, e2, r2⟩ := read_spec _ hl T
+  obtain ⟨st₃, e3, f2⟩ := read_first _ hl T
+  rw [e2] at e3; cases e3
+  have hsl : ∀ d, SortedLe (group d (logRows (log ++ news ss))) := fun d => hs.sublist List.filter_sublist
+  have r1 : biRead (runSteps st ss) T (-1) = specRead (log ++ news ss) T := by
+    rw [biRead_last _ i1.1, specRead_eq, specRows_congr i1.2.1]
+  have f1 : biRead (runSteps st ss) T 0 = specFirst (log ++ news ss) T := by
+    rw [biRead_first _ i1.1, specFirst_eq]
+    exact firstRows_congr i1.2.1 (fun d => (i1.1 d).1.le) hsl T
+  exact ⟨st₂, e2, r1.trans r2.symm, f1.trans f2.symm, r1, f1⟩
+
+
+/-- the hypothesis as a computation (for `#guard`s; `history` sorts with `List.mergeSort`, which the kernel does not unfold) -/
+def interleavedChk (pub : List Version) (st : Store) : List Step → Bool
+  | [] => true
+  | .new v :: ss => interleavedChk (pub ++ [v]) (biMerge (some st) (Bi v.ts v.stamp)) ss
+  | .again w :: ss =>
+      (w.ts.all (fun p => decide ((⟨p.1, w.stamp, p.2⟩ : Row) ∈ st)) ||
+        (pub.any (fun v => v.stamp == w.stamp && v.ts == w.ts) && w.ts.all fun p => (biRead st (some w.stamp) (-1)).any fun q => q.1 == p.1 && (p.2 == Option.none || p.2 == q.2))) &&
+      interleavedChk pub (biMerge (some st) (Bi w.ts w.stamp)) ss
+
+theorem interleaved_of_chk (ss : List Step) : ∀ (pub : List Version) (st : Store), interleavedChk pub st ss = true → Interleaved pub st ss := by
+  induction ss with
+  | nil => intros; trivial
+  | cons s ss ih =>
+    intro pub st h
+    cases s with
+    | new v => exact ih _ _ h
+    | again w =>
+      simp only [interleavedChk, Bool.and_eq_true, Bool.or_eq_true] at h
+      refine ⟨?_, ih _ _ h.2⟩
+      rcases h.1 with h1 | ⟨hc, h2⟩
+      · exact Or.inl fun p hp => by simpa using List.all_eq_true.mp h1 p hp
+      · have hmem : w ∈ pub := by
+          obtain ⟨v, hv, he⟩ := List.any_eq_true.mp hc
+          simp only [Bool.and_eq_true, beq_iff_eq] at he
+          cases v; cases w; simp only at he; obtain ⟨rfl, rfl⟩ := he; exact hv
+        refine Or.inr ⟨hmem, fun p hp => ?_⟩
+        obtain ⟨q, hq, hqp⟩ := List.any_eq_true.mp (List.all_eq_true.mp h2 p hp)
+        simp only [Bool.and_eq_true, Bool.or_eq_true, beq_iff_eq] at hqp
+        exact ⟨q.2, by rw [← hqp.1]; exact hq, hqp.2⟩
+
+-- satisfiable, non-trivially: `3@10 (dates 1,2), 5@11`; then 10 again, NEW `3@12`, 12 again (rows in the store), NEW `3@13` (a repeat: compressed away),
+-- 13 again (published and visible, its row is NOT in the store), 10 again, NEW `7@13`
+def ilDemo : List Step := [.again ⟨10, [(1, some 3), (2, some 1)]⟩, .new ⟨12, [(1, some 3)]⟩, .again ⟨12, [(1, some 3)]⟩, .new ⟨13, [(1, some 3)]⟩,
+  .again ⟨13, [(1, some 3)]⟩, .again ⟨10, [(1, some 3), (2, some 1)]⟩, .new ⟨13, [(1, some 7)]⟩]
+#guard ((history [⟨10, [(1, some 3), (2, some 1)]⟩, ⟨11, [(1, some 5)]⟩]).map fun st => interleavedChk [⟨10, [(1, some 3), (2, some 1)]⟩, ⟨11, [(1, some 5)]⟩] st ilDemo) = some true
+example : Ordered ([⟨10, [(1, some 3), (2, some 1)]⟩, ⟨11, [(1, some 5)]⟩] ++ news ilDemo) := ⟨by simp [news, ilDemo], by decide, by decide⟩
+#guard ((history [⟨10, [(1, some 3), (2, some 1)]⟩, ⟨11, [(1, some 5)]⟩]).map fun st => biRead (runSteps st ilDemo) Option.none (-1)) = some [(1, some 7), (2, some 1)]
+-- not satisfiable for a version overridden under its own stamp (`5@10, 6@10`, again `5@10`): neither in the store nor visible
+#guard ((history [⟨10, [(1, some 5)]⟩, ⟨10, [(1, some 6)]⟩]).map fun st =>
+    interleavedChk [⟨10, [(1, some 5)]⟩, ⟨10, [(1, some 6)]⟩] st [.again ⟨10, [(1, some 5)]⟩]) = some false
+
 end Pyg.Props.C17
